@@ -10,6 +10,10 @@
              (class DL / SL / QU below) says what every ring/list/queue must contain after each
              operation; the dumped links must represent exactly that (next and prev mutually
              consistent, tail = last node, recycled node not enqueued, values attached to addresses...)
+  crashes    a sanitizer abort / crash of the implementation driver is a failing input of the history
+             it happened in; the histories after it are run again by a fresh process (run_c_resilient)
+             so that they are judged on their own output
+  shrink     ddmin on the operation list of the failing history, re-run on the implementation
 """
 import json
 import os
